@@ -6,6 +6,7 @@
 From Coq Require Import ZArith List Bool Lia.
 From NV Require Import Base.Bytes C16.Tables C16.Model C16.Lemmas C16.LemmasTrk C16.LemmasTckHdr
   C08.Model C08.Lemmas.
+From NV Require C06.Model C06.Lemmas C08.ModelSlice C08.LemmasSlice.
 Import ListNotations.
 Open Scope Z_scope.
 
@@ -113,6 +114,49 @@ Theorem C08_prefix_compressed :
   \/ load_compressed avail strict A decode (take n (compress F)) = Some d.
 Proof. exact compressed_prefix. Qed.
 Print Assumptions C08_prefix_compressed.
+
+(* ---- partial reads through the array proxy (img.dataobj[index] -> fileslice, the model of
+   coq/C06/Model.v): for ANY heuristic, index, shape (any rank), item size, offset and order, if
+   the read of the complete file F gives r, the same read of ANY prefix of F gives r or raises:
+   every segment read is checked against the number of bytes requested, and a short segment can
+   only make the total too small.  (Holds as well for the bytes a silently ending compressed
+   stream delivers: they are a prefix of the plain bytes.) *)
+Theorem C08_prefix_partial_read : forall (h : C06.Model.heuristic) F n ix shape w off o r,
+  C06.Model.fileslice_h h F ix shape w off o = C06.Model.Ok r ->
+  C06.Model.fileslice_h h (C06.Model.take n F) ix shape w off o = C06.Model.Ok r
+  \/ exists e, C06.Model.fileslice_h h (C06.Model.take n F) ix shape w off o = C06.Model.Err e.
+Proof. exact C08.LemmasSlice.fileslice_prefix. Qed.
+Print Assumptions C08_prefix_partial_read.
+
+(* with C06_fileslice_eq_numpy: for a complete, long-enough file and a valid index, a partial
+   read of any prefix returns NumPy's arr[ix] of the COMPLETE array, or raises *)
+Theorem C08_prefix_partial_read_numpy : forall (h : C06.Model.heuristic) F n ix shape w off o c,
+  C06.Lemmas.h_ok h -> 0 < w -> 0 <= off ->
+  C06.Model.canonical_slicers true ix shape = C06.Model.Ok c -> C06.Lemmas.ix_valid shape c ->
+  off + w * C06.Model.prod shape <= C06.Model.zlen F ->
+  C06.Model.fileslice_h h (C06.Model.take n F) ix shape w off o
+    = C06.Model.Ok (C06.Lemmas.result_of o F shape w off c)
+  \/ exists e, C06.Model.fileslice_h h (C06.Model.take n F) ix shape w off o = C06.Model.Err e.
+Proof. exact C08.LemmasSlice.fileslice_prefix_numpy. Qed.
+Print Assumptions C08_prefix_partial_read_numpy.
+
+(* the two reads of the sweep (img.dataobj[..., 1::2] and img.dataobj[..., -1], Fortran order,
+   default heuristic), as run by the extracted model *)
+Theorem C08_prefix_partial_read_sweep : forall F n ix shape w off r,
+  C08.ModelSlice.partial_read F ix shape w off = Some r ->
+  C08.ModelSlice.partial_read (C06.Model.take n F) ix shape w off = Some r
+  \/ C08.ModelSlice.partial_read (C06.Model.take n F) ix shape w off = None.
+Proof. exact C08.LemmasSlice.partial_read_prefix. Qed.
+Print Assumptions C08_prefix_partial_read_sweep.
+
+Example C08_partial_read_nonvacuous :
+  let F := map Z.of_nat (seq 0 40) in
+  C08.ModelSlice.partial_read F (C08.ModelSlice.idx_step 3) [2; 3; 4] 1 8 = Some ([2; 3; 2], [14; 15; 16; 17; 18; 19; 26; 27; 28; 29; 30; 31])
+  /\ C08.ModelSlice.partial_read (C06.Model.take 31 F) (C08.ModelSlice.idx_step 3) [2; 3; 4] 1 8 = None
+  /\ C08.ModelSlice.partial_read (C06.Model.take 31 F) C08.ModelSlice.idx_last [2; 3; 4] 1 8 = None
+  /\ C08.ModelSlice.partial_read (C06.Model.take 39 F) (C08.ModelSlice.idx_step 3) [2; 3; 4] 1 8
+     = C08.ModelSlice.partial_read F (C08.ModelSlice.idx_step 3) [2; 3; 4] 1 8.
+Proof. cbv zeta. repeat split; vm_compute; reflexivity. Qed.
 
 (* ---- non-vacuity *)
 Example C08_nonvacuous :
